@@ -1,6 +1,6 @@
 CONSTANTS
   XSet <- XFive
-  LatticeK = 2
+  LatticeK = 1
   FailMags = {1, 10}
 SPECIFICATION Spec
 CHECK_DEADLOCK FALSE
